@@ -166,6 +166,7 @@ class World:
         self.nlabels = 0
         self.in_script = True
         self.probe = None         # optional callback(world, yield_code) for property oracles
+        self.tmp_now = None       # clock value seen by WorkerTmp.notify() during an "Nt" label
         self.script_labels = None  # number of executed labels that came from the script (the rest is the tail)
         self.stopping_at = None   # number of labels executed when stop() was first entered
 
@@ -298,6 +299,20 @@ class World:
                         self.events.append(("notify", lab[1], self.mono))
                     except ValueError:
                         pass      # the master closed its copy: the file is no longer looked at
+        elif kind == "Nt":
+            # the child pid notified at virtual time lab[2] (<= now): its own clock read happened then
+            k = self.kid(lab[1])
+            if k is not None and k["st"] == "R" and not k["master"] and MONO0 + int(lab[2]) <= self.mono:
+                w = self.objs.get(lab[1])
+                if w is not None:
+                    self.tmp_now = MONO0 + int(lab[2])
+                    try:
+                        w.tmp.notify()
+                        self.events.append(("notify", lab[1], self.tmp_now))
+                    except ValueError:
+                        pass
+                    finally:
+                        self.tmp_now = None
         elif kind == "E":
             self.disk["workers"] = int(lab[1])
             self.disk["timeout"] = int(lab[2])
@@ -417,6 +432,8 @@ class World:
 
         class TmpTimeProxy(Passthrough):
             def monotonic(self):
+                if world.tmp_now is not None:
+                    return world.tmp_now / float(TICK)
                 return world.mono / float(TICK)
 
             def time(self):
@@ -570,6 +587,8 @@ def coq_label(lab):
         return "Tick %d" % lab[1]
     if k == "N":
         return "Notify %d" % lab[1]
+    if k == "Nt":
+        return "NotifyAt %d %d" % (lab[1], lab[2])
     if k == "E":
         return "EditCfg %d %d" % (lab[1], lab[2])
     if k == "P":
